@@ -75,7 +75,27 @@ let fx =
   let has w = List.mem w (String.split_on_char ',' e) in
   { fx_pop = has "pop"; fx_nullref = has "nullref" }
 
+let hexdecode h =
+  let n = String.length h / 2 in
+  String.init n (fun i -> Char.chr (int_of_string ("0x" ^ String.sub h (2 * i) 2)))
+let hexencode s = String.concat "" (List.map (fun c -> Printf.sprintf "%02x" (Char.code c)) (explode s))
+
+(* mode "paths": lines "<hex url> <hex base>" -> normalisePath(base), pathFromUrl(url), resolvePath(...) *)
+let paths_mode file =
+  let ic = open_in file in
+  (try while true do
+       let l = input_line ic in
+       let url, base = match String.split_on_char ' ' l with
+         | [u; b] -> explode (hexdecode u), explode (hexdecode b)
+         | [u] -> explode (hexdecode u), []
+         | _ -> [], [] in
+       Printf.printf "%s %s %s\n" (hexencode (implode (normalise_path base))) (hexencode (implode (path_from_url url)))
+         (hexencode (implode (import_key url (normalise_path base))))
+     done with End_of_file -> ());
+  close_in ic
+
 let () =
+  if Array.length Sys.argv > 2 && Sys.argv.(1) = "paths" then (paths_mode Sys.argv.(2); exit 0);
   let table = Hashtbl.create 1024 in
   let ic = open_in Sys.argv.(1) in
   (try while true do
